@@ -9,6 +9,8 @@ CHECKS = {
          "§5 C01", "Lean 4 proof (induction over chunks) + ast translator of struct layouts + differential correspondence"),
  "C06": ("proof that every decoded field is the little-endian integer at the offset obtained from the specification's layout, in both directions; the layouts read off decode and _encode are proved equal to the hand-transcribed spec table (decide +kernel), field names included",
          "§5 C06", "Lean 4 proof (offset lemmas) + generated-layout = spec-layout obligation + independent spec reader as oracle"),
+ "C12": ("proof, for every flag codec / enumeration / the AI-script and hit-point codecs as regenerated from the source, of number->rich->number and rich->number->rich exactness on the WHOLE domain (statements over all natural numbers, proved by induction on bits / membership, not by enumeration), injectivity, and rejection of every non-member number; plus exhaustive correspondence of the model with the real helpers",
+         "§5 C12", "Lean 4 proof (bit induction, finite-table obligations by decide +kernel) + ast translator of bit layouts/enums + exhaustive differential correspondence"),
  "C19": ("proof that the decoder model is total (well-founded recursion on the remaining input) and that every accepted input re-encodes to bytes that decode to the same model (c19_writable, for all byte strings); tied to the code by correspondence on a malformed-input stream",
          "§5 C19", "Lean 4 proof (termination by well-founded recursion; stability by strong induction) + differential correspondence on malformed inputs"),
 }
